@@ -300,19 +300,20 @@ class TagHandler(BaseHandler):
 H = {'H1': TagHandler('H1'), 'H2': TagHandler('H2')}
 KJ, KT, KV = 'application/json', 'text/plain', 'application/vnd.api+json'
 KP = 'application/json; version=2'      # a parameterised key (may come to sit BEFORE the bare key of the same type)
-QUERIES = [KJ, 'application/json; charset=UTF-8', 'application/*', 'text/*', '*/*', None, 'foo/bar', KV, 'nonsense',
+KM = 'application/vnd.Acme.Order+json'   # a key spelled with capitals: found under exactly that spelling
+QUERIES = [KM, KM.lower(), KJ, 'application/json; charset=UTF-8', 'application/*', 'text/*', '*/*', None, 'foo/bar', KV, 'nonsense',
            'application/json; version=2; charset=utf-8', 'application/json; q=0', 'application/json; version=3']
 E2E = [KJ, 'application/json; charset=UTF-8', 'application/*', None, 'foo/bar']
 DEFAULTS = [KJ, KT]
 
 OPS = [('set', KJ, 'H1'), ('set', KJ, 'H2'), ('set', KT, 'H1'), ('set', KT, 'H2'), ('set', KV, 'H1'), ('set', KV, 'H2'),
-       ('set', KP, 'H2'), ('del', KP),
+       ('set', KP, 'H2'), ('del', KP), ('set', KM, 'H2'), ('del', KM),
        ('del', KJ), ('del', KT), ('del', KV),
        ('pop', KJ), ('pop', KT), ('popd', KV),
        ('setdefault', KJ, 'H2'), ('setdefault', KT, 'H1'), ('setdefault', KV, 'H1'),
        ('update', ((KJ, 'H2'), (KT, 'H1'))), ('update', ()), ('update', ((KV, 'H2'),)),
        ('clear',), ('copy_switch',), ('copy_keep',)]
-OPS_SMALL = [('set', KJ, 'H2'), ('set', KT, 'H1'), ('set', KV, 'H2'), ('set', KP, 'H1'), ('del', KJ), ('pop', KT), ('setdefault', KJ, 'H1'),
+OPS_SMALL = [('set', KM, 'H1'), ('set', KJ, 'H2'), ('set', KT, 'H1'), ('set', KV, 'H2'), ('set', KP, 'H1'), ('del', KJ), ('pop', KT), ('setdefault', KJ, 'H1'),
              ('update', ((KV, 'H1'), (KJ, 'H1'))), ('clear',), ('copy_switch',), ('copy_keep',)]
 
 _model_memo = {}
